@@ -16,6 +16,7 @@ import GoHeader.Oracle.C13
 import GoHeader.Oracle.C05
 import GoHeader.Oracle.C19
 import GoHeader.Oracle.C12
+import GoHeader.Oracle.C03
 open GoHeader GoHeader.Oracle
 
 def evalLine (line : String) : Option Verdict :=
@@ -34,6 +35,7 @@ def evalLine (line : String) : Option Verdict :=
     | "C05" :: rest => some (evalSession "C05" rest outs)
     | "C18" :: rest => some (evalSession "C18" rest outs)
     | "C19" :: rest => some (evalC19Flight rest outs)
+    | "C07" :: rest => some (evalBurst rest outs)
     | "C12" :: rest => some (evalConc "C12" rest outs)
     | "C17" :: rest => some (evalConc "C17" rest outs)
     | _ => some (.bad "unknown property tag")
@@ -59,18 +61,23 @@ def storeCov (o : OSt) : String :=
 inductive Block where
   | store (o : OSt)
   | c19 (o : C19St)
+  | sync (o : SyncSt)
 
 def Block.feed : Block → String → Block
   | .store o, l => .store (storeLine o l)
   | .c19 o, l => .c19 (c19Line o l)
+  | .sync o, l => .sync (syncLine o l)
 
 def Block.done : Block → Verdict
   | .store o => match o.fail with | some v => v | none => .ok (storeCov o)
   | .c19 o => c19Finish o
+  | .sync o => syncFinish o
 
 def blockFor (line : String) : Block :=
   match (splitWs line)[2]? with
   | some "C19" => .c19 (c19Line {} line)
+  | some "C03" => .sync (syncLine {} line)
+  | some "C07" => .sync (syncLine {} line)
   | _ => .store (storeLine {} line)
 
 partial def loop (h : IO.FS.Stream) (lineNo : Nat) (a : DAcc) (cur : Option (Nat × Block)) : IO DAcc := do
